@@ -52,6 +52,10 @@ def nary_to_binary(t):
     return (op,) + tuple(args)
 
 
+def fide_ctcs(n):
+    return FIDE_CTCS + nary_sets(n)[1:]
+
+
 def fide_emit(shape, cards, names, abstract, opts, trees):
     """opts: dict of surface choices. Returns an ElementTree of a FeatureIDE document."""
     rels = R.relations_of(shape)
@@ -143,7 +147,7 @@ def fide_read(tree) -> FeatureModel:
 
 def fide_ok(shape, cards, names, abstract, opts, ctc_code) -> bool:
     n = R.n_features(shape)
-    trees = [c05_rename(t, names) for t in FIDE_CTCS[ctc_code]] if n >= 2 else []
+    trees = [c05_rename(t, names) for t in fide_ctcs(n)[ctc_code % len(fide_ctcs(n))]] if n >= 2 else []
     doc = fide_emit(shape, cards, names, abstract, opts, trees)
     got = fide_read(doc)
     want = R.build(shape, cards, names=names, abstract=abstract, ctcs=[R.ctc(str(i + 1), nary_to_binary(t)) for i, t in enumerate(trees)])
@@ -153,7 +157,21 @@ def fide_ok(shape, cards, names, abstract, opts, ctc_code) -> bool:
 def c05_rename(t, names):
     if isinstance(t, tuple):
         return (t[0],) + tuple(c05_rename(x, names) for x in t[1:])
-    return {'F0': names[0], 'F1': names[1]}.get(t, t)
+    return {'F%d' % i: nm for i, nm in enumerate(names)}.get(t, t)
+
+
+def nary_sets(n):
+    """constraint lists with n-ary and / or rules over *distinct* operands, arity 1..min(n, 6),
+    top-level and nested (a lost operand then changes the meaning)."""
+    nm = ['F%d' % i for i in range(n)]
+    out = [[]]
+    for k in range(1, min(n, 6) + 1):
+        ops = tuple(nm[:k])
+        out.append([('OR',) + ops, ('AND',) + tuple(reversed(ops))])
+        if k >= 2:
+            out.append([('IMPLIES', ('OR',) + ops, ('NOT', ('AND',) + ops[1:])) if k >= 3 else ('IMPLIES', ('OR',) + ops, nm[0]),
+                        ('EQUIVALENCE', nm[0], ('AND',) + ops), ('NOT', ('OR',) + ops)])
+    return out
 
 
 def fide_file(shape, cards, names, abstract, opts, ctc_code) -> list:
@@ -162,7 +180,7 @@ def fide_file(shape, cards, names, abstract, opts, ctc_code) -> list:
     cards = [tuple(c) for c in cards]
     n = R.n_features(shape)
     names = names or ['F%d' % i for i in range(n)]
-    trees = [c05_rename(t, names) for t in FIDE_CTCS[ctc_code]] if n >= 2 else []
+    trees = [c05_rename(t, names) for t in fide_ctcs(n)[ctc_code % len(fide_ctcs(n))]] if n >= 2 else []
     want = R.build(shape, cards, names=names, abstract=abstract, ctcs=[R.ctc(str(i + 1), nary_to_binary(t)) for i, t in enumerate(trees)])
     try:
         with rt.TempDir() as d:
@@ -332,13 +350,22 @@ def _glencoe_term(t):
     return {'type': GL_TERM[t[0]], 'operands': [_glencoe_term(x) for x in t[1:]]}
 
 
-GL_CTCS = [[], [('IMPLIES', 'F0', 'F1'), ('XOR', 'F0', 'F1')], [('OR', 'F0', 'F1', 'F0'), ('AND', 'F1', 'F0', 'F1')], [('EXCLUDES', 'F1', ('NOT', 'F0')), ('EQUIVALENCE', 'F0', 'F1')]]
+GL_CTCS = [[], [('IMPLIES', 'F0', 'F1'), ('XOR', 'F0', 'F1')], [('OR', 'F0', 'F1', 'F2'), ('AND', 'F2', 'F0', 'F1'), ('XOR', 'F1', 'F2', 'F0')], [('EXCLUDES', 'F1', ('NOT', 'F0')), ('EQUIVALENCE', 'F0', 'F1')]]
+
+
+def gl_ctcs(n, code):
+    if n < 2:
+        return []
+    trees = GL_CTCS[code % len(GL_CTCS)]
+    if n < 3:
+        trees = [t for t in trees if 'F2' not in R.tree_names(t)]
+    return trees
 
 
 def glencoe_ok(shape, cards, opts, ctc_code) -> bool:
     n = R.n_features(shape)
     names = ['F%d' % i for i in range(n)]
-    trees = GL_CTCS[ctc_code] if n >= 2 else []
+    trees = gl_ctcs(n, ctc_code)
     d = glencoe_emit(shape, cards, names, opts, trees)
     rd = GlencoeReader('unused')
     got = FeatureModel(rd._parse_tree(None, d['tree'], d['features']), rd._parse_constraints(d['constraints'], d['features']))
@@ -363,7 +390,7 @@ def glencoe_file(shape, cards, opts, ctc_code) -> list:
     cards = [tuple(c) for c in cards]
     n = R.n_features(shape)
     names = ['F%d' % i for i in range(n)]
-    trees = GL_CTCS[ctc_code] if n >= 2 else []
+    trees = gl_ctcs(n, ctc_code)
     want = R.build(shape, cards, names=names, ctcs=[R.ctc('c%d' % i, nary_fold(t)) for i, t in enumerate(trees)])
     try:
         with rt.TempDir() as d:
@@ -453,7 +480,7 @@ def batch_fide(max_n, lo, hi, seed):
         for cards in _fide_fragment_cards(shape):
             combos = [dict()] + [{o: 1} for o in FIDE_OPTS] + [{o: 1 for o in FIDE_OPTS if rnd.random() < 0.5} for _ in range(2)]
             for opts in combos:
-                code = rnd.randrange(len(FIDE_CTCS)) if not opts.get('no_constraints_section') else 0
+                code = rnd.randrange(len(fide_ctcs(n))) if not opts.get('no_constraints_section') else 0
                 args = [shape, cards, None, [rnd.random() < 0.3 for _ in range(n)], opts, code]
                 res['instances'] += 1
                 res['native_runs'] += 1
@@ -638,19 +665,19 @@ def conditions(tier, seed):
             # FeatureIDE: cards + surface options symbolic (booleans), names placeholders
             op = ', '.join('o%d: bool' % i for i in range(len(optnames)))
             od = '{' + ', '.join('%r: o%d' % (o, i) for i, o in enumerate(optnames)) + '}'
-            code = (si + seed) % len(FIDE_CTCS)
+            code = (si + seed) % len(fide_ctcs(n))
             fc = c07.fragment_cards(shape)
             conds.append(Cond(name='c09_fide_%d' % si, imports=imp, params=cp + ', ' + op, pre=c07.fragment_pre(shape) + ['not (o5 and %d > 0)' % code],
                               body='P.fide_ok(SHAPE_%d, %s, %r, %r, %s, %d)' % (si, cexpr, ['F%d' % i for i in range(n)], [i % 2 == 1 for i in range(n)], od, code),
                               timeout=T, aspect='FeatureIDE reference document (Element level): cardinalities and surface choices symbolic',
-                              sample={'shape': R.shape_str(shape), 'symbolic': 'cards + %d surface Booleans' % len(optnames), 'constraints': FIDE_CTCS[code]},
+                              sample={'shape': R.shape_str(shape), 'symbolic': 'cards + %d surface Booleans' % len(optnames), 'constraints': str(fide_ctcs(n)[code])[:200]},
                               validate=[tuple(x for c in fc[0] for x in c) + tuple([False] * len(optnames)), tuple(x for c in fc[-1] for x in c) + tuple([True] * 5 + [False] + [True] * 3)]))
             pos = (si + seed) % n
             names = ['F%d' % i for i in range(n)]
             nexpr = '[' + ', '.join(('name' if i == pos else repr(names[i])) for i in range(n)) + ']'
             conds.append(Cond(name='c09_fidename_%d' % si, imports=imp, params='name: str',
                               pre=['1 <= len(name) <= %d' % L, 'all(len(name) != len(o) or name != o for o in %r)' % (names,)],
-                              body='P.fide_ok(SHAPE_%d, %r, %s, %r, {"mandatory_false": 1, "graphics": 1}, %d)' % (si, fc[-1], nexpr, [False] * n, (code + 1) % len(FIDE_CTCS)),
+                              body='P.fide_ok(SHAPE_%d, %r, %s, %r, {"mandatory_false": 1, "graphics": 1}, %d)' % (si, fc[-1], nexpr, [False] * n, (code + 1) % len(fide_ctcs(n))),
                               timeout=T, aspect='FeatureIDE reference document: one symbolic name', sample={'shape': R.shape_str(shape), 'symbolic': 'name of feature %d' % pos},
                               validate=[('Zz',), ('a b',)]))
         # FaMa: all cards symbolic (rendered as attribute strings, parsed by int())
